@@ -21,7 +21,7 @@ def run_ext(ctx):
     jvm_workers = 8 if q else None
     # 1. exhaustive: Impl => Abstract (quick: U1 and U2 up to height 2; thorough: U1, U2, U3 in full)
     for u in (("U1", "U2q") if q else UNIVERSES):
-        ctx.tlc_mc("extpool", "MCExtPool.tla", "MC_%s.cfg" % u, timeout=1500, workers=jvm_workers, coverage=not q, must_cover=False)
+        ctx.tlc_mc("extpool", "MCExtPool.tla", "MC_%s.cfg" % u, timeout=1500, workers=jvm_workers, coverage=(not q and u != "U3"), must_cover=False)
     # model-level non-vacuity: each named deviation must be caught by the abstract predicates
     for cfg, name in BUGS:
         try:
@@ -32,7 +32,7 @@ def run_ext(ctx):
     # 2. behaviours of the implementation-shaped model
     behaviours, seen = [], set()
     for i, u in enumerate(UNIVERSES):
-        for h in ctx.tlc_sim("extpool", "ExtPoolSim.tla", "Sim_%s.cfg" % u, num=12 if q else 500, depth=22,
+        for h in ctx.tlc_sim("extpool", "ExtPoolSim.tla", "Sim_%s.cfg" % u, num=12 if q else 300, depth=22,
                              timeout=300 if q else 1200, seed=ctx.seed * 10 + i):
             k = json.dumps(h, sort_keys=True)
             if k not in seen:
@@ -41,12 +41,12 @@ def run_ext(ctx):
     if not behaviours:
         raise vlib.Inconclusive("extpool: no behaviours generated")
     random.Random(ctx.seed).shuffle(behaviours)
-    behaviours = behaviours[: (500 if q else 12000)]
+    behaviours = behaviours[: (500 if q else 8000)]
     ind = os.path.join(ctx.work, "in-c19extpool")
     os.makedirs(ind, exist_ok=True)
     json.dump(behaviours, open(os.path.join(ind, "behaviours.json"), "w"))
     # 3. the real pool on a real ledger
-    res = ctx.go_driver("c19extpool", "TestDriver", env={"VERIF_IN": ind, "VERIF_RANDOM": 500 if q else 15000}, timeout=3000)
+    res = ctx.go_driver("c19extpool", "TestDriver", env={"VERIF_IN": ind, "VERIF_RANDOM": 500 if q else 8000}, timeout=3000)
     ctx.absorb(res)
     # 4. TLC judges the recorded trace against the abstract specification
     trace = os.path.join(res["_out"], "trace.ndjson")
